@@ -609,7 +609,7 @@ func runGapScenarios(rng *rand.Rand, n int, st *c06Stats, fail func(prop, mon, k
 			sizes = append(sizes, size)
 		}
 		// "beyond the merged size" includes what a caller passes to mean "no limit"
-		sizes = append(sizes, math.MaxInt32, 1<<60, math.MaxInt)
+		sizes = append(sizes, 1<<60, math.MaxInt)
 		for _, size := range sizes {
 			l := load()
 			st.aliasRuns++
